@@ -17,7 +17,9 @@ package main
 // hour can never expire during a case ("blocked"), a back-off of a few
 // nanoseconds is waited out by the harness (bounded spin on the item's own
 // backoffUntil) before the next operation ("expired"). No assertion depends on
-// how long anything takes.
+// how long anything takes. The configuration itself is generated: both
+// durations come from the two classes (ns / >= 30 min) and from zero and
+// negative values, in every relation to one another (see genC30Durations).
 
 import (
 	"encoding/json"
@@ -50,8 +52,9 @@ type c30Op struct {
 }
 
 type c30Case struct {
-	BackoffNS    int64 // NewQueue backoffDuration
-	MaxBackoffNS int64 // NewQueue maxBackoffDuration
+	BackoffNS    int64  // NewQueue backoffDuration
+	MaxBackoffNS int64  // NewQueue maxBackoffDuration
+	Relation     string `json:",omitempty"` // how the generator related the two (label only)
 	Ops          []c30Op
 }
 
@@ -70,23 +73,92 @@ func c30Opts(id uint32, ver int) IndexOptions {
 	}
 }
 
+// genC30Durations draws the queue configuration. Every positive value is
+// either "short" (1-6 ns: the harness waits it out) or "long" (30 min and
+// more: it cannot expire during a case), so that whatever back-off a failure
+// computes - (consecutive failures + 1) x backoffDuration, capped at
+// maxBackoffDuration - falls into one of the two classes the harness can own.
+// All relations between the two values are produced: per-failure back-off
+// below, equal to and above the maximum (the very first failure is capped
+// then), either or both zero (back-off of zero length), and negative values
+// (NewQueue documents those as "disabled": both become zero).
+func genC30Durations(g kit.G) c30Case {
+	short := []int64{1, 2, 3}
+	long := []int64{c30Long / 2, c30Long, 2 * c30Long, 3 * c30Long, 5 * c30Long}
+	val := func(label string) int64 {
+		if g.Bool(65, label+"-long") {
+			return kit.Pick(g, long, label)
+		}
+		return kit.Pick(g, short, label)
+	}
+	two := func() (lo, hi int64) {
+		lo, hi = val("dur-a"), val("dur-b")
+		if lo == hi {
+			hi = 2 * lo // stays in its class: <= 6ns or >= 1h
+		}
+		if lo > hi {
+			lo, hi = hi, lo
+		}
+		return lo, hi
+	}
+	c := c30Case{}
+	c.Relation = kit.Pick(g, []string{"below-max", "above-max", "above-max", "equal", "free", "zero-backoff", "zero-max", "both-zero", "negative"}, "relation")
+	switch c.Relation {
+	case "below-max":
+		c.BackoffNS, c.MaxBackoffNS = two()
+	case "above-max":
+		c.MaxBackoffNS, c.BackoffNS = two()
+	case "equal":
+		c.BackoffNS = val("dur-a")
+		c.MaxBackoffNS = c.BackoffNS
+	case "free":
+		c.BackoffNS, c.MaxBackoffNS = val("dur-a"), val("dur-b")
+	case "zero-backoff":
+		c.MaxBackoffNS = val("dur-b")
+	case "zero-max":
+		c.BackoffNS = val("dur-a")
+	case "both-zero":
+	case "negative":
+		c.BackoffNS, c.MaxBackoffNS = val("dur-a"), val("dur-b")
+		switch g.U(3, "negative-which") {
+		case 0:
+			c.BackoffNS = -1
+		case 1:
+			c.MaxBackoffNS = -1
+		default:
+			c.BackoffNS, c.MaxBackoffNS = -1, -1
+		}
+	}
+	return c
+}
+
+func c30DurClass(ns int64) string {
+	switch {
+	case ns < 0:
+		return "negative"
+	case ns == 0:
+		return "zero"
+	case ns < c30Long/2:
+		return "ns"
+	}
+	return "long"
+}
+
 func genC30(rt *rapid.T) c30Case {
 	g := kit.G{T: rt}
-	durs := [][2]int64{
-		{c30Long, c30Long},     // every failure blocks
-		{1, 1},                 // every failure expires at once
-		{1, c30Long},           // n ns: expires
-		{c30Long, 3 * c30Long}, // 1h, 2h, 3h, 3h: blocks
-		{c30Long, 1},           // capped to 1ns: expires
-		{0, 0},                 // disabled
-		{-1, c30Long},          // negative: disabled
-		{1, 2},                 // 1ns, 2ns, capped 2ns
-		{c30Long / 2, c30Long}, // 30min (treated as blocked), 1h
-	}
-	d := kit.Pick(g, durs, "durations")
-	c := c30Case{BackoffNS: d[0], MaxBackoffNS: d[1]}
+	c := genC30Durations(g)
 	nIDs := g.Int(2, 6, "nids")
-	id := func(label string) uint32 { return uint32(g.Int(0, nIDs-1, label)) }
+	// ids are "sticky": a third of the operations address the repository of
+	// the previous single-id operation, so that chains such as fail, success,
+	// add on one repository are common.
+	lastID, haveLast := uint32(0), false
+	id := func(label string) uint32 {
+		if haveLast && g.Bool(33, label+"-sticky") {
+			return lastID
+		}
+		lastID, haveLast = uint32(g.Int(0, nIDs-1, label)), true
+		return lastID
+	}
 	idList := func(label string) []uint32 {
 		var out []uint32
 		switch g.Int(0, 9, label+"-shape") {
@@ -105,6 +177,15 @@ func genC30(rt *rapid.T) c30Case {
 		if g.Bool(15, label+"-extra") {
 			out = append(out, uint32(nIDs+g.Int(0, 2, label+"-extraid")))
 		}
+		if haveLast && g.Bool(30, label+"-last") {
+			seen := false
+			for _, x := range out {
+				seen = seen || x == lastID
+			}
+			if !seen {
+				out = append(out, lastID)
+			}
+		}
 		if len(out) > 0 && g.Bool(8, label+"-dup") {
 			out = append(out, out[g.Int(0, len(out)-1, label+"-dupidx")])
 		}
@@ -119,7 +200,7 @@ func genC30(rt *rapid.T) c30Case {
 	n := g.Int(4, 40, "nops")
 	for i := 0; i < n; i++ {
 		var op c30Op
-		switch k := g.Int(0, 99, "kind"); {
+		switch k := g.U(100, "kind"); {
 		case k < 32:
 			op = c30Op{Kind: "add", ID: id("id"), Ver: g.Int(-1, 2, "ver")}
 			if v, ok := lastVer[op.ID]; ok && g.Bool(40, "samever") {
@@ -159,6 +240,7 @@ type c30Item struct {
 	seq     int64
 	fails   int  // consecutive failures counted by the back-off
 	blocked bool // a back-off that cannot expire during the case is pending
+	cleared bool // a success ended a pending blocking back-off and the item was not enqueued since (label only)
 }
 
 type c30Model struct {
@@ -190,6 +272,7 @@ func (m *c30Model) enqueue(it *c30Item) bool {
 	m.seq++
 	it.seq = m.seq
 	it.onQueue = true
+	it.cleared = false
 	return true
 }
 
@@ -253,15 +336,18 @@ func (m *c30Model) foreignKeyed() bool {
 	return false
 }
 
-// fail applies backoff.Fail; it returns the back-off that was set.
-func (m *c30Model) fail(it *c30Item) int64 {
-	d := int64(it.fails+1) * m.backoff
+// fail applies backoff.Fail as documented in backoff.go: the back-off is
+// (consecutive failures + 1) x backoffDuration; when that exceeds maxBackoff
+// the back-off is maxBackoff and the failure is not counted (so with
+// backoffDuration > maxBackoff the counter never leaves zero). It returns the
+// back-off that was set and whether it was capped.
+func (m *c30Model) fail(it *c30Item) (d int64, capped bool) {
+	d = int64(it.fails+1) * m.backoff
 	if d > m.maxBackoff {
-		d = m.maxBackoff
-	} else {
-		it.fails++
+		return m.maxBackoff, true
 	}
-	return d
+	it.fails++
+	return d, false
 }
 
 // ---- interpretation --------------------------------------------------------
@@ -385,6 +471,10 @@ func runC30(rec *kit.Recorder, c c30Case) error {
 			case it.blocked:
 				labels["add:blocked-by-backoff"] = true
 			default:
+				if it.cleared {
+					labels["add:enqueued-after-success-cleared-backoff"] = true
+					nt = true
+				}
 				m.enqueue(it)
 			}
 		case "pop":
@@ -403,8 +493,13 @@ func runC30(rec *kit.Recorder, c c30Case) error {
 				if it.blocked && !it.onQueue {
 					labels["bump:blocked-by-backoff"] = true
 				}
+				cleared := it.cleared
 				if m.enqueue(it) {
 					labels["bump:re-enqueued"] = true
+					if cleared {
+						labels["bump:enqueued-after-success-cleared-backoff"] = true
+						nt = true
+					}
 				}
 			}
 			if !reflect.DeepEqual(c30Sorted(got), c30Sorted(want)) {
@@ -419,6 +514,16 @@ func runC30(rec *kit.Recorder, c c30Case) error {
 			it := m.getOrAdd(op.ID)
 			it.failed = false
 			it.indexed = reflect.DeepEqual(opts, it.opts)
+			// a success ends the back-off, however it was computed
+			if it.blocked {
+				labels["ok:ends-blocking-backoff"] = true
+				if it.fails == 0 {
+					labels["ok:ends-backoff-of-uncounted-failure"] = true
+				}
+				if !it.onQueue {
+					it.cleared = true
+				}
+			}
 			it.fails = 0
 			it.blocked = false
 			if it.indexed {
@@ -438,7 +543,19 @@ func runC30(rec *kit.Recorder, c c30Case) error {
 				labels["fail:removed-from-queue"] = true
 			}
 			it.onQueue = false
-			d := m.fail(it)
+			it.cleared = false
+			d, capped := m.fail(it)
+			switch {
+			case capped && it.fails == 0:
+				labels["fail:capped-uncounted-first"] = true
+			case capped:
+				labels["fail:capped"] = true
+			case it.fails > 1:
+				labels["fail:grown"] = true
+			}
+			if d == 0 {
+				labels["fail:zero-length-backoff"] = true
+			}
 			if d >= c30Long/2 {
 				it.blocked = true
 				labels["fail:blocked"] = true
@@ -518,7 +635,11 @@ func runC30(rec *kit.Recorder, c c30Case) error {
 		ls = append(ls, l)
 	}
 	sort.Strings(ls)
-	ls = append(ls, fmt.Sprintf("backoff:%s/%s", time.Duration(c.BackoffNS), time.Duration(c.MaxBackoffNS)))
+	rel := c.Relation
+	if rel == "" {
+		rel = "unlabelled"
+	}
+	ls = append(ls, "config:"+rel, fmt.Sprintf("config-class:%s/%s", c30DurClass(c.BackoffNS), c30DurClass(c.MaxBackoffNS)))
 	b, _ := json.Marshal(c)
 	rec.Eval(string(b), nt, ls...)
 	rec.Sample(c, nt)
@@ -527,8 +648,9 @@ func runC30(rec *kit.Recorder, c c30Case) error {
 
 func TestVerif_C30(t *testing.T) {
 	rec := kit.Open(t, "C30",
-		"rapid-generated histories of 4-40 operations (AddOrUpdate, Pop, Bump, SetIndexed success/failure, MaybeRemoveMissing) over 2-6 repository ids incl. ids the queue does not know, x 9 back-off configurations (blocking 1h / expiring ns / disabled); a case = one history, interpreted against the real Queue and a reference model, then drained; non-trivial = it pops among >= 3 enqueued items or runs a remove-missing after SetIndexed on an unknown id; distinct by hash of the history",
-		"time is owned through durations: a back-off >= 30min never expires during a case, a back-off of a few ns is waited out by the harness before the next operation",
+		"rapid-generated histories of 4-40 operations (AddOrUpdate, Pop, Bump, SetIndexed success/failure, MaybeRemoveMissing) over 2-6 repository ids incl. ids the queue does not know (a third of the operations stay on the repository of the previous one, so fail / success / bump chains on one repository are common), x generated queue configurations: backoffDuration and maxBackoffDuration each drawn from 1-6 ns (expiring) or 30 min - 10 h (blocking) in every relation - per-failure back-off below, equal to and above the maximum (first failure already capped and not counted), either or both zero, negative (disabled); a case = one history, interpreted against the real Queue and a reference model, then drained; non-trivial = it pops among >= 3 enqueued items, enqueues a repository whose blocking back-off was ended by a success, or runs a remove-missing after SetIndexed on an unknown id; distinct by hash of the history",
+		"time is owned through durations (queue.go / backoff.go read time.Now() directly, there is no clock hook): a back-off >= 30min never expires during a case, a back-off of a few ns (or of zero length) is waited out by the harness before the next operation",
+		"'honours failure back-off' is modelled from backoff.go: a failure takes the repository off the queue and blocks AddOrUpdate / Bump from enqueueing it for min((counted failures + 1) x backoffDuration, maxBackoffDuration), a capped failure is not counted, and any non-failure SetIndexed ends the back-off and the count whatever the configuration",
 		"the same-size shortcut of MaybeRemoveMissing is documented behaviour and is modelled (len(ids) == number of tracked items => no removal)",
 		"an item created by SetIndexed on an unknown id carries zero-valued options until AddOrUpdate; Bump re-enqueues it with those ('last known') options",
 		"ids returned by Bump / MaybeRemoveMissing are compared as sorted lists; DateAddedToQueue is not checked",
